@@ -244,6 +244,21 @@ def has_sharing(vs):
     return False
 
 
+def unencodable(vs):
+    """does the value hold text without a UTF-8 form (a lone surrogate, U+D800..U+DFFF)?  str.encode("UTF-8") refuses
+    exactly those"""
+    k = vs[0]
+    if k == "sh":
+        return unencodable(vs[2])
+    if k == "t":
+        return any(0xD800 <= c <= 0xDFFF for c in vs[1])
+    if k in ("l", "T", "s", "fs"):
+        return any(unencodable(x) for x in vs[1])
+    if k == "d":
+        return any(unencodable(a) or unencodable(b) for a, b in vs[1])
+    return False
+
+
 def coq_int(n):
     """Coq Z term for n; big decimal literals are catastrophically slow to parse (seconds each), so numbers beyond
     64 bits are written as 2^k +/- d when possible and in hexadecimal otherwise"""
@@ -346,7 +361,8 @@ def slice_vs(vs, voc=None, seen=None):
     if k == "b":
         return str_ws(vs[1], bytes(vs[1]), voc)
     if k == "t":
-        return ["wo", "unicode", [str_ws(vs[1], to_py(vs).encode("utf-8"), voc)]]   # payload = code points
+        # payload = code points; a lone surrogate is counted (and hand-encoded) in its generic three-byte form
+        return ["wo", "unicode", [str_ws(vs[1], to_py(vs).encode("utf-8", "surrogatepass"), voc)]]
     if k == "B":
         return ["wo", "boolean", [["wi", "INT", 1 if vs[1] else 0, 1 if vs[1] else 0]]]
     if k == "N":
@@ -427,7 +443,7 @@ class Enc:
             if ws[1]:
                 self.tok(tokens.VOCAB, ws[2])
             else:
-                body = "".join(chr(c) for c in ws[3]).encode("utf-8") if text else bytes(ws[3])
+                body = "".join(chr(c) for c in ws[3]).encode("utf-8", "surrogatepass") if text else bytes(ws[3])
                 assert len(body) == ws[2], (ws, body)
                 self.tok(tokens.STRING, ws[2], body)
         elif k == "wo":
@@ -463,11 +479,12 @@ class Enc:
 _counter = [0]
 
 
-def make_interface(methods, direct=False):
+def make_interface(methods, direct=False, bases=None):
     """methods: {name: (argnames, [constraint objects/shorthands], response or None)} -> a fresh RemoteInterface.
     Both public ways of declaring a method schema: a prototype function whose defaults are the constraints
     (RemoteMethodSchema.initFromMethod), or, with direct=True, a RemoteMethodSchema(_response=..., **constraints)
-    assigned in the interface body (RemoteMethodSchema.__init__ with keyword arguments)."""
+    assigned in the interface body (RemoteMethodSchema.__init__ with keyword arguments).
+    bases: the RemoteInterfaces it derives from (default: RemoteInterface itself)."""
     _counter[0] += 1
     attrs = {"__remote_name__": "RIVerif%d" % _counter[0]}
     for name, (argnames, cons, resp) in methods.items():
@@ -478,7 +495,12 @@ def make_interface(methods, direct=False):
         src = "def %s(%s):\n    return _r\n" % (name, ", ".join("%s=_d[%d]" % (a, i) for i, a in enumerate(argnames)))
         exec(src, env)
         attrs[name] = env[name]
-    return RemoteInterface.__class__("RIVerif%d" % _counter[0], (RemoteInterface,), attrs)
+    return RemoteInterface.__class__("RIVerif%d" % _counter[0], tuple(bases) if bases else (RemoteInterface,), attrs)
+
+
+def own_method(iface, name):
+    """the schema a RemoteInterface declares ITSELF for the name (not what it inherits), or None"""
+    return iface.direct(name)
 
 
 class Target(Referenceable):
@@ -566,25 +588,49 @@ class World:
     """a Broker pair, a Target implementing a fresh RemoteInterface with one method `m`"""
 
     def __init__(self, argnames, cons, resp=None, result=None, shared_iface=True, vocab=0, direct=False,
-                 per_instance=False, echo=False):
+                 per_instance=False, echo=False, chain=None, level=None, meth="m"):
+        """chain: instead of ONE interface with the method m(argnames=cons), a chain of RemoteInterfaces, root first, each
+        deriving from the one before it; a layer is {method name: (argnames, cons, resp)} (what that interface declares
+        itself).  The target implements chain[level] (default: the most derived one) and the call addresses `meth`.
+        self.ms: the schema of the most derived interface -- at or below level -- that declares meth (None: undeclared),
+        found by walking the chain here, not by asking the interface."""
         _worlds[0] += 1
         if _worlds[0] % 20 == 0:
             gc.collect()
             E.turn()
         E.reset_clock()
         self.vocab = vocab
-        self.iface = make_interface({"m": (argnames, cons, resp)}, direct=direct)
-        self.ms = self.iface["m"]
+        self.meth = meth
+        names = ["m"]
+        if chain is None:
+            self.iface = make_interface({"m": (argnames, cons, resp)}, direct=direct)
+            self.ms = self.iface["m"]
+            self.layers = [[("m", self.ms)]]
+        else:
+            self.ifaces = []
+            for layer in chain:
+                self.ifaces.append(make_interface(layer, direct=direct, bases=(self.ifaces[-1],) if self.ifaces else None))
+            level = len(chain) - 1 if level is None else level
+            self.iface = self.ifaces[level]
+            # the own method tables of the interfaces of __iro__: the interface itself, then its bases
+            self.layers = [[(n, own_method(self.ifaces[i], n)) for n in sorted(chain[i])] for i in range(level, -1, -1)]
+            self.ms = None
+            for layer in self.layers:
+                hit = [m_ for n, m_ in layer if n == meth]
+                if hit:
+                    self.ms = hit[0]
+                    break
+            names = sorted({n for layer in chain for n in layer} | {meth})
         if per_instance:
             from zope.interface import directlyProvides
             # per_instance names a GROUP: all targets of one group are instances of one python class
             if per_instance not in _shared_classes:
                 _shared_classes[per_instance] = type("SharedTarget_%s" % per_instance, (SharedTarget,), {})
-            self.target = _shared_classes[per_instance](["m"], {"m": result})
+            self.target = _shared_classes[per_instance](names, {meth: result})
             directlyProvides(self.target, self.iface)
         else:
             cls = implementer(self.iface)(type("T", (Target,), {}))
-            self.target = cls(["m"], {"m": result})
+            self.target = cls(names, {meth: result})
         self.target.echo = echo
         self.tb, self.cb = vocab_broker_pair(vocab)
         self.recv_errors = []
@@ -602,7 +648,7 @@ class World:
         res = []
         kw = dict(kwargs)
         kw.update(extra)
-        self.rr.callRemote("m", *args, **kw).addBoth(res.append)
+        self.rr.callRemote(self.meth, *args, **kw).addBoth(res.append)
         E.turn()
         return res
 
@@ -633,9 +679,11 @@ class World:
         E.turn()
         return res == [99]
 
-    def feed_call(self, reqid, body_fn, methname=b"m"):
+    def feed_call(self, reqid, body_fn, methname=None):
         """deliver a hand-built `call` sequence to the target broker; body_fn(enc) emits the `arguments` sequence.
         Returns the raw bytes fed."""
+        if methname is None:
+            methname = self.meth.encode()
         enc = Enc()
         enc.objects = self.tb.objectCounter
         oc, _ = enc.open(b"call")
@@ -650,12 +698,12 @@ class World:
         return data
 
 
-def call_seq_trial(argnames, cons, children_fn):
+def call_seq_trial(argnames, cons, children_fn, **world_kw):
     """a hand-built OPEN call whose CHILDREN are whatever children_fn(clid, clid2) returns: wire specs, or
     ["wa", count, items] for an `arguments` sequence (count: int / None / wire spec).  clid: the World's target (method m
     with the given schema), clid2: a second exported object WITHOUT RemoteInterface.  -> (res, world, children)"""
     from foolscap import call as callmod
-    w = World(argnames, cons, None, vocab=1)
+    w = World(argnames, cons, None, vocab=1, **world_kw)
     t2 = Target(["m"])
     w.rr2, clid2 = export(w.tb, w.cb, t2)         # (keep the reference: dropping it sends a decref call that takes reqID 1)
     w.t2 = t2
@@ -741,12 +789,13 @@ def flat_items(pos_ws, kw_ws):
     return len(pos_ws), items
 
 
-def call_trial(argnames, cons, pos_ws, kw_ws, numargs=None, prelude=None, vocab=0, direct=False, per_instance=False, raw=None):
+def call_trial(argnames, cons, pos_ws, kw_ws, numargs=None, prelude=None, vocab=0, direct=False, per_instance=False, raw=None,
+               **world_kw):
     """hand-built `call` for method m(argnames=cons): positional wire trees pos_ws, keyword wire trees kw_ws
     [(name, ws)..].  The caller side has a PendingRequest for reqID 1 so the Error/Answer coming back is observed.
     prelude: list of value specs sent first inside the arguments scope?  (not possible: see smuggle_trial)"""
     from foolscap import call as callmod
-    w = World(argnames, cons, None, vocab=vocab, direct=direct, per_instance=per_instance)
+    w = World(argnames, cons, None, vocab=vocab, direct=direct, per_instance=per_instance, **world_kw)
     req = callmod.PendingRequest(1, None, None, "m")
     w.cb.addRequest(req)
     res = []
